@@ -2,10 +2,30 @@
 
 package simrt
 
-import "runtime"
+import (
+	"reflect"
+	"runtime"
+	"unsafe"
+)
 
 // RaceEnabled reports whether the binary was built with -race.
 const RaceEnabled = true
 
 func raceDisable() { runtime.RaceDisable() }
 func raceEnable()  { runtime.RaceEnable() }
+
+// like sync.Pool: one of a fixed set of addresses stands for the object, so that only Put(x) -> Get(x) is ordered
+var poolRaceHash [128]uint64
+
+func poolRaceAddr(x any) unsafe.Pointer {
+	v := reflect.ValueOf(x)
+	var ptr uintptr
+	if v.Kind() == reflect.Pointer {
+		ptr = v.Pointer()
+	}
+	h := uint32((uint64(uint32(ptr)) * 0x85ebca6b) >> 16)
+	return unsafe.Pointer(&poolRaceHash[h%uint32(len(poolRaceHash))])
+}
+
+func raceReleaseObj(x any) { runtime.RaceReleaseMerge(poolRaceAddr(x)) }
+func raceAcquireObj(x any) { runtime.RaceAcquire(poolRaceAddr(x)) }
